@@ -206,7 +206,7 @@ OBSERVATIONS = frozenset(['q.qsize', 'q.empty', 'q.full', 'e.is_set', 'l.locked'
 
 class _TState:
     __slots__ = ('id', 'name', 'sem', 'pred', 'pending', 'state', 'real', 'deadline', 'timed_out',
-                 'kill', 'ident', 'daemon', 'is_main', 'seen_progress', 'last_obs')
+                 'kill', 'ident', 'daemon', 'is_main', 'seen_progress', 'last_obs', 'since_op')
 
     def __init__(self, tid, name):
         self.id = tid
@@ -224,6 +224,7 @@ class _TState:
         self.is_main = False
         self.seen_progress = 0
         self.last_obs = -1
+        self.since_op = 99
 
     def __repr__(self):
         return f'<T{self.id} {self.name} {self.state} {self.pending}>'
@@ -258,6 +259,7 @@ class Scheduler:
         self.preempt_p = 0.0     # probability that a source line of the library is a decision point
         self.preempt_key = None  # (seed, run): per-thread PRNG streams for the line-level pre-emption
         self.preempt_rngs = {}
+        self.preempt_post = None  # probability for the first source lines after an intercepted operation
         self.pre_steps = 0
         self.pre_cap = 400000
         self.idle_steps = 0
@@ -324,6 +326,8 @@ class Scheduler:
         me.pred = None
         me.pending = None
         me.deadline = None
+        if kind != 'pre':
+            me.since_op = 0
         self.clock += advance
         self.log(kind, info)
         return not me.timed_out
@@ -429,7 +433,7 @@ class Scheduler:
         chosen.sem.release()
 
     # -- line-level pre-emption ---------------------------------------------------------------
-    def enable_preemption(self, p, key, lib_prefix):
+    def enable_preemption(self, p, key, lib_prefix, post=None):
         """Every source line executed inside the library (files under lib_prefix) by a simulated
         thread becomes a decision point with probability p.  The draw comes from a PRNG stream per
         thread (keyed by the thread's name), so which lines pre-empt is a function of that thread's
@@ -437,6 +441,10 @@ class Scheduler:
         self.preempt_p = p
         self.preempt_key = key
         self.lib_prefix = lib_prefix
+        # 'post' mode: the (up to three) library lines that follow an intercepted operation pre-empt with
+        # this higher probability: the window between a synchronisation operation and the statement that
+        # acts on its result (get -> number, check -> act) is where two-line races live
+        self.preempt_post = post
 
     def tracer(self, frame, event, arg):
         if event == 'call' and frame.f_code.co_filename.startswith(self.lib_prefix):
@@ -450,7 +458,12 @@ class Scheduler:
                 rng = self.preempt_rngs.get(me.name)
                 if rng is None:
                     rng = self.preempt_rngs[me.name] = random.Random(f'{self.preempt_key}:pre:{me.name}')
-                if rng.random() < self.preempt_p:
+                p = self.preempt_p
+                if self.preempt_post is not None:
+                    me.since_op += 1
+                    if me.since_op <= 3:
+                        p = self.preempt_post
+                if rng.random() < p:
                     self.count('preemptions')
                     self.yield_point('pre')
         return self._line_tracer
